@@ -102,14 +102,15 @@ PROPS = {
         gens=tiers(
             [rnd("both", "iter", 2500, 50, exclude="itermut,iter,intoiter,drain", boost="sortediter:3"),
              rnd("both", "bulk", 1000, 50, exclude="serde,deser,eq,retain,retainmut,intovec", boost="sortedvec:6"),
-             builds("pq", 4), builds("dpq", 5)],
-            [rnd("both", "iter", 20000, 80, exclude="itermut,iter,intoiter,drain", boost="sortediter:3"), builds("dpq", 7)]),
+             builds("pq", 4), builds("dpq", 5), pygen("big_sorted", 2)],
+            [rnd("both", "iter", 20000, 80, exclude="itermut,iter,intoiter,drain", boost="sortediter:3"), builds("dpq", 7), pygen("big_sorted", 4)]),
     ),
     "C07": dict(
         theorems=None, drop=["t"],
         gens=tiers(
             [rnd("both", "bulk", 4000, 50, exclude="serde,deser,eq,retain,retainmut,sortedvec,intovec,clone"),
-             rnd("both", "bulk", 800, 120, keys=60, prios="wide", exclude="serde,deser,eq,retain,retainmut,sortedvec,intovec,clone")],
+             rnd("both", "bulk", 800, 120, keys=60, prios="wide", exclude="serde,deser,eq,retain,retainmut,sortedvec,intovec,clone"),
+             pygen("big_bulk", 2)],
             [rnd("both", "bulk", 30000, 80, exclude="serde,deser,eq,retain,retainmut")]),
     ),
     "C08": dict(
@@ -135,7 +136,10 @@ PROPS = {
     "C11": dict(
         theorems=None, drop=["t"],
         gens=tiers(
-            [rnd("both", "core", 4000, 60, boost="pushinc:5,pushdec:5"), builds("pq", 5), builds("dpq", 5)],
+            [rnd("both", "core", 4000, 60, boost="pushinc:5,pushdec:5"), builds("pq", 5), builds("dpq", 5),
+             # deep heaps: the direction-limited pushes at every level of 16..200-element queues
+             rnd("both", "core", 600, 300, keys=64, boost="pushinc:8,pushdec:8"),
+             rnd("both", "core", 200, 600, keys=200, prios="wide", boost="pushinc:8,pushdec:8")],
             [rnd("both", "core", 30000, 80, boost="pushinc:5,pushdec:5"), builds("pq", 6), builds("dpq", 6)]),
     ),
     "C12": dict(
@@ -162,8 +166,9 @@ PROPS = {
     "C15": dict(
         theorems=None, drop=["t"],
         gens=tiers(
-            [rnd("both", "bulk", 4000, 50, exclude="retain,retainmut,sortedvec,intovec,append,extend,fromiter,fromvec", boost="serde:6,deser:6")],
-            [rnd("both", "bulk", 30000, 80, boost="serde:6,deser:6")]),
+            [rnd("both", "bulk", 4000, 50, exclude="retain,retainmut,sortedvec,intovec,append,extend,fromiter,fromvec", boost="serde:6,deser:6"),
+             pygen("big_serde", 2)],
+            [rnd("both", "bulk", 30000, 80, boost="serde:6,deser:6"), pygen("big_serde", 4)]),
     ),
     "C16": dict(
         theorems=None, drop=["t"],
@@ -171,7 +176,7 @@ PROPS = {
             [rnd("both", "iter", 4000, 50, exclude="itermut,iter,intoiter,sortediter", boost="drain:6,clear:20"),
              # large capacities / large queues: clear and drain must not depend on them
              rnd("both", "all", 1500, 60, exclude="itermut,iter,intoiter,sortediter,serde,deser", boost="clear:25,drain:10,withcap:12,reserve:4"),
-             rnd("both", "core", 150, 500, keys=400, prios="wide", boost="clear:30")],
+             rnd("both", "core", 150, 500, keys=400, prios="wide", boost="clear:30"), pygen("big_clear", 2)],
             [rnd("both", "iter", 30000, 80, exclude="itermut", boost="drain:6,clear:20")]),
     ),
     "C17": dict(
